@@ -18,7 +18,12 @@ structure Flags where
   nextRecvReady : Bool           -- `self._next_recv_encryption is not None`
   strict : Bool                  -- `self._strict_kex`
   recvSeq : Nat                  -- `self._recv_seq`
-  authActive : Bool              -- `self._auth is not None`
+  authActive : Bool              -- `self._auth is not None`.  On a client this is NOT "a request of its own is
+                                 -- outstanding": `try_next_auth` creates the auth object before its `_start()`
+                                 -- has written anything (it first awaits `password_auth_requested()`,
+                                 -- `public_key_auth_requested()`, ...), and the object outlives the FAILURE that
+                                 -- answered the previous request until the next object replaces it.  So the flag
+                                 -- over-approximates the property's wording (audit C06 #2); see `connGuard`.
   authHandlers : List Nat        -- message numbers the current auth object handles
   authComplete : Bool
   authFinal : Bool               -- `self._auth_final`
@@ -68,7 +73,28 @@ inductive Effect where
 
 /-- state guards at the top of the connection-level handlers (`_process_service_request`,
     `_process_service_accept`, `_process_ext_info`, `_process_kexinit`, `_process_newkeys`,
-    `_process_userauth_request/failure/success`); `true` = the handler goes on -/
+    `_process_userauth_request/failure/success`); `true` = the handler goes on.
+
+    What this does and does not say (audit of the model against the code, C06 #2 and #9):
+    * USERAUTH_SUCCESS / FAILURE: the code's test is literally `self.is_client() and self._auth`
+      (connection.py `_process_userauth_success`), i.e. "an authentication object exists".  That is weaker than the
+      property's "only while a request of its own is outstanding": while the application is being asked for a
+      password (the `none` request already answered, the password request not yet written) an unsolicited SUCCESS
+      is accepted and `connect()` returns; shown on the real client.  Only the (host-key authenticated) server can
+      send it and it could as well have accepted `none`, so nothing is gained; `Props/C06.lean`
+      `success_needs_outstanding_request` proves exactly the weaker statement and
+      `success_accepted_before_request_is_written` states the gap.
+    * the final `else true` is over-permissive: for USERAUTH_BANNER at a server, REQUEST_SUCCESS / REQUEST_FAILURE
+      with no global request outstanding, SERVICE_REQUEST / SERVICE_ACCEPT naming another service, and
+      CHANNEL_OPEN_CONFIRMATION / FAILURE for a channel that is not being opened, the code ends the connection
+      (ProtocolError / ServiceNotAvailable) where the model says `handled .conn`.  That is the safe direction for
+      the "handled only if ..." theorems, but it means `wrong_role_rejected` does not cover BANNER-to-server although
+      the code does reject it, and the correspondence cannot notice (it accepts `error` where the model says
+      `handled`).
+    * `handled .auth` / `handled (.chan n)` mean "reached that object's handler": what the handler then does with a
+      message its own dialogue does not call for (a keyboard-interactive INFO_RESPONSE with no INFO_REQUEST
+      outstanding: protocol error since the repair of audit C06 #1) is modelled in `Model/Auth.lean` (`onInfo`,
+      property C05), not here. -/
 def connGuard (f : Flags) (t : Nat) : Bool :=
   if t = MSG_SERVICE_REQUEST then f.server && f.recvEnc
   else if t = MSG_SERVICE_ACCEPT then !f.server && f.recvEnc
